@@ -928,7 +928,7 @@ func concConfigs() []*concConfig {
 			// Two waiting workers, a drain that matches every worker (both
 			// are woken and must both come back), two tasks. Three threads
 			// with a blocking call each: at most 3 preemptions in the quick
-			// tier.
+			// tier, 5 in the thorough one (unbounded does not finish).
 			name: "c04-conc-undrain-two", workers: four,
 			execs:  []execDecl{{name: "a", platform: "P1", corr: "A", tool: "T", dur: 1}},
 			drains: []drainDecl{{name: "d:all", platform: "P1", pattern: map[string]string{}}},
